@@ -45,7 +45,7 @@ GenMustxLeaf == {"pl.lim", "pl.lcheck", "pl.gcheck", "g.limit", "pl.ml"}
 GenMustxInit == {Empty, [l \in {"pl.s"} |-> "s:b"]}
 \* few leaves, three owners: the same leaf is held by two or three intents most of the time
 \* leaves with a schema default next to siblings held by other intents
-GenDfltLeaf == {"s.desc", "s.hostname", "s.feat.level", "s.host", "i1.name", "i1.mode", "i1.val"}
+GenDfltLeaf == {"s.desc", "s.hostname", "s.feat", "s.feat.level", "s.host", "i1.name", "i1.mode", "i1.val"}
 GenDfltInit == {Empty, [l \in {"pl.s"} |-> "s:b"]}
 \* mandatory leaf in list entries, string restrictions on a leaf-list (bad values allowed)
 GenMandLeaf == Fam_mand \cup {"pl.a"}
@@ -53,7 +53,7 @@ GenMandInit == {Empty, [l \in {"pl.s"} |-> "s:b"]}
 GenDenseLeaf == {"pl.a", "pl.ab"}
 GenDenseInit == {Empty, [l \in {"pl.s"} |-> "s:b"]}
 \* a case member that is a container populated by several intents on different paths, against a competing case
-GenChoice2Leaf == {"c.x", "c.y", "c.y2"}
+GenChoice2Leaf == {"c.x", "c.y", "c.y2", "cp1.name", "cp1.w", "cp2.name", "cp2.w"}
 GenChoice2Init == {Empty}
 GenValidLeaf == Fam_valid
 GenValidInit == {Empty, [l \in {"s.host", "pl.n"} |-> IF l = "s.host" THEN "s:abc" ELSE "u:1"],
